@@ -153,10 +153,14 @@ class CharacterClass(MutableSet[int]):
 
     def __isub__(self, other: AbstractSet[Any]) -> 'CharacterClass':
         if isinstance(other, CharacterClass):
-            if self.negative:
-                if other.negative:
-                    self.positive |= (other.negative - self.negative)
-                    self.negative.clear()
+            if self.negative and other.negative:
+                # (P | ~N) - (Q | ~M) = (P | ~N) & (M - Q)
+                subset = other.negative - other.positive
+                self.positive -= self.positive - subset
+                self.positive |= subset - self.negative
+                self.negative.clear()
+                return self
+            elif self.negative:
                 self.negative |= other.positive
             elif other.negative:
                 self.positive &= other.negative
